@@ -11,6 +11,7 @@ import (
 
 // MapLoop is a `for k, v := range m` loop over a map.
 type MapLoop struct {
+	edgeConds []Cond // conditions known on the phi edge being classified
 	Fn    *ssa.Function
 	Loop  *Loop
 	Range *ssa.Range
@@ -137,11 +138,15 @@ func (ml *MapLoop) Issues(o OrderOpts) []OrderIssue {
 		if !ok {
 			continue
 		}
+		if ml.neverObserved(p) {
+			continue // reset in every iteration before use and dead after the loop
+		}
 		for i, e := range p.Edges {
 			pred := l.Header.Preds[i]
 			if !l.Body[pred] {
 				continue // initial value
 			}
+			ml.edgeConds = CondsOnEdgeTo(pred, l.Header)
 			ml.classifyCarried(p, e, 0, add, o)
 		}
 	}
@@ -182,6 +187,12 @@ func (ml *MapLoop) Issues(o OrderOpts) []OrderIssue {
 					if hp, ok := ia.Index.(*ssa.Phi); ok && hp.Block() == l.Header {
 						continue // counter-indexed fill: decided with the counter (must be sorted before use)
 					}
+				}
+				if _, isConst := x.Val.(*ssa.Const); isConst {
+					continue // idempotent flag / reset to a constant
+				}
+				if ml.guardedExtremumStore(x) {
+					continue // running min/max over the unique range key, with its payload
 				}
 				add("store-outer-memory", x.Pos(), "store through %s, which is not local to the iteration", ExprKey(root))
 			case *ssa.MapUpdate:
@@ -243,6 +254,57 @@ func (ml *MapLoop) Issues(o OrderOpts) []OrderIssue {
 	return out
 }
 
+// neverObserved: the loop-carried value of p is never read: every (transitive, through phis)
+// referrer is a phi feeding back into loop-carried phis.
+func (ml *MapLoop) neverObserved(p *ssa.Phi) bool {
+	seen := map[ssa.Value]bool{}
+	var dead func(v ssa.Value) bool
+	dead = func(v ssa.Value) bool {
+		if seen[v] {
+			return true
+		}
+		seen[v] = true
+		for _, r := range *v.Referrers() {
+			switch x := r.(type) {
+			case *ssa.Phi:
+				if !dead(x) {
+					return false
+				}
+			case *ssa.DebugRef:
+			default:
+				return false
+			}
+		}
+		return true
+	}
+	return dead(p)
+}
+
+// guardedExtremumStore: a store into an object declared outside the loop is order-independent
+// when it is the update of a running minimum/maximum over the unique range key: the block is
+// controlled by a strict comparison between the range key and a field of that same object.
+func (ml *MapLoop) guardedExtremumStore(st *ssa.Store) bool {
+	root := rootAddr(st.Addr)
+	for _, cd := range CondsAt(st.Block()) {
+		if !ml.Loop.Body[cd.If.Block()] {
+			continue
+		}
+		b, ok := cd.V.(*ssa.BinOp)
+		if !ok || (b.Op != token.LSS && b.Op != token.GTR) {
+			continue
+		}
+		for _, pair := range [][2]ssa.Value{{b.X, b.Y}, {b.Y, b.X}} {
+			if !isRangeKey(ml, pair[0]) {
+				continue
+			}
+			if u, ok := pair[1].(*ssa.UnOp); ok && u.Op == token.MUL && rootAddr(u.X) == root {
+				return true
+			}
+		}
+	}
+	return false
+}
+
 func firstPosOf(b *ssa.BasicBlock) token.Pos {
 	for _, in := range b.Instrs {
 		if in.Pos().IsValid() {
@@ -268,7 +330,15 @@ func isZeroStruct(v ssa.Value) bool {
 
 // derivedFromElem: the address/value is reached from the range value or a lookup by range key.
 func (ml *MapLoop) derivedFromElem(v ssa.Value) bool {
+	return ml.derivedFromElemS(v, map[ssa.Value]bool{})
+}
+
+func (ml *MapLoop) derivedFromElemS(v ssa.Value, seen map[ssa.Value]bool) bool {
 	for i := 0; i < 20; i++ {
+		if seen[v] {
+			return false
+		}
+		seen[v] = true
 		if v == ml.Val && ml.Val != nil {
 			return true
 		}
@@ -293,7 +363,7 @@ func (ml *MapLoop) derivedFromElem(v ssa.Value) bool {
 		case *ssa.Phi:
 			// inner-loop induction over the element's slice
 			for _, e := range x.Edges {
-				if ml.derivedFromElem(e) {
+				if ml.derivedFromElemS(e, seen) {
 					return true
 				}
 			}
@@ -336,7 +406,10 @@ func (ml *MapLoop) classifyCarried(p *ssa.Phi, e ssa.Value, depth int, add func(
 			break
 		}
 		// conditional update: every edge is either "unchanged" or a new value
-		for _, ee := range x.Edges {
+		for i, ee := range x.Edges {
+			if i < len(x.Block().Preds) {
+				ml.edgeConds = CondsOnEdgeTo(x.Block().Preds[i], x.Block())
+			}
 			ml.classifyCarried2(p, x, ee, depth+1, add, o)
 		}
 		return
@@ -361,39 +434,56 @@ func (ml *MapLoop) classifyCarried2(p *ssa.Phi, merge *ssa.Phi, e ssa.Value, dep
 // when the comparison is between the carried variable (or a sibling carried variable updated on
 // the same edges) and a quantity of the current element.
 func (ml *MapLoop) conditionalOrOpaque(p *ssa.Phi, e ssa.Value, add func(string, token.Pos, string, ...interface{})) {
-	// find the block where the new value is chosen and the conditions controlling it relative to the header
-	var at *ssa.BasicBlock
-	if in, ok := e.(ssa.Instruction); ok {
-		at = in.Block()
+	conds := append([]Cond{}, ml.edgeConds...)
+	if in, ok := e.(ssa.Instruction); ok && ml.Loop.Body[in.Block()] {
+		conds = append(conds, CondsAt(in.Block())...)
 	}
-	if at != nil && ml.Loop.Body[at] {
-		for _, cd := range CondsAt(at) {
-			if !ml.Loop.Body[cd.If.Block()] {
+	// runningOf: v is a loop-carried header phi, or a field read through one
+	runningOf := func(v ssa.Value) *ssa.Phi {
+		for i := 0; i < 6; i++ {
+			if hp, ok := v.(*ssa.Phi); ok && hp.Block() == ml.Loop.Header {
+				return hp
+			}
+			switch x := v.(type) {
+			case *ssa.UnOp:
+				v = x.X
+			case *ssa.FieldAddr:
+				v = x.X
+			case *ssa.Field:
+				v = x.X
+			default:
+				return nil
+			}
+		}
+		return nil
+	}
+	for _, cd := range conds {
+		if !ml.Loop.Body[cd.If.Block()] {
+			continue
+		}
+		b, ok := cd.V.(*ssa.BinOp)
+		if !ok {
+			continue
+		}
+		switch b.Op {
+		case token.LSS, token.GTR, token.LEQ, token.GEQ:
+		default:
+			continue
+		}
+		for _, pair := range [][2]ssa.Value{{b.X, b.Y}, {b.Y, b.X}} {
+			hp := runningOf(pair[0])
+			if hp == nil {
 				continue
 			}
-			if b, ok := cd.V.(*ssa.BinOp); ok {
-				switch b.Op {
-				case token.LSS, token.GTR, token.LEQ, token.GEQ:
-					// comparison involving a header phi (the running extremum)
-					for _, side := range []ssa.Value{b.X, b.Y} {
-						if hp, ok := side.(*ssa.Phi); ok && hp.Block() == ml.Loop.Header {
-							if hp == p {
-								return // running min/max of a quantity: order-independent
-							}
-							// payload of an extremum: deterministic only if the compared quantity is the unique range key
-							other := b.X
-							if side == b.X {
-								other = b.Y
-							}
-							if isRangeKey(ml, other) && (b.Op == token.LSS || b.Op == token.GTR) {
-								return
-							}
-							add("extremum-payload-tie", e.Pos(), "%s is the payload of a min/max selection whose compared quantity is not the unique range key: ties are broken by map order", p.Comment)
-							return
-						}
-					}
-				}
+			other := pair[1]
+			if isRangeKey(ml, other) {
+				return // selection by the unique range key: the extremum and its payload are order-independent
 			}
+			if hp == p && (other == e || ExprKey(other) == ExprKey(e)) {
+				return // running min/max of a quantity
+			}
+			add("extremum-payload-tie", posOf(e, p), "%s is updated under a min/max comparison whose compared quantity is not the unique range key: ties are broken by map order", p.Comment)
+			return
 		}
 	}
 	add("carried-last-writer", posOf(e, p), "loop-carried variable %s takes a value from the current element (%s): the last element seen wins", p.Comment, ExprKey(e))
